@@ -10,6 +10,15 @@ TRUST = ("trusts the Go type checker, go/cfg, go/ssa, the documented semantics o
 
 # property id -> (claimed text, technique, design_ref)   (only built properties appear here)
 CLAIMS = {
+    "C07": (
+        "Decides for package c14n: success of the reader requires a further Token() found to be io.EOF, EOF inside a value is an error, "
+        "and the reader never succeeds with a nil value; separators written after skippable elements do not depend on the range index; "
+        "safeSet is true exactly for 0x20–0x7F except the quote and the backslash, the two-character escapes are exactly the seven of "
+        "README §8.1 and the fallback is u00 plus two digits from the upper-case hex table; members are sorted with a plain < on keys before "
+        "every object is returned; a decoding error in a string is rejected; no break that merely ends a switch case sits inside a loop of "
+        "the formatters. Not decided: the number formatter's digits (value-level), idempotence and injectivity.",
+        "static analysis: branch-fact dataflow on go/cfg, constant folding of tables against the specification, shape lints",
+        "§4 C07"),
     "C05": (
         "Decides for package num: the only float→integer path is int64(math.Round(x)) (half away from zero, sign-symmetric) and the "
         "precision-changing operations still round with it; a symbolic decimal-scale type system over every amount operation (values carry "
